@@ -1,5 +1,6 @@
 """C08 -- merging is the exact conjunction of the two viewpoints."""
 import family
+import clauses as C
 import gen
 import ops
 import opsprop
@@ -168,11 +169,9 @@ def gen_cases(tier):
 def run_case(case):
     d1, d2 = case["raw"]
     evs = []
-    for j, (x, y) in enumerate(((d1, d2), (d2, d1)), 1):
-        if case.get("only_event") and case["only_event"] != j:
-            continue
+    for x, y in ((d1, d2), (d2, d1)):
         evs.append(ops.ev_merge(gen.mk_contract(x), gen.mk_contract(y), ["exact", "itf"]))
-    if case.get("twin") and not case.get("only_event"):
+    if case.get("twin"):
         # the same merges again, in the same process, with one operand replaced by a print twin (stored exactly: simplify=False)
         t1 = dict(d1, g=case["twin"])
         for x, y in ((t1, d2), (d2, t1)):
@@ -180,6 +179,19 @@ def run_case(case):
                 evs.append(ops.ev_merge(gen.mk_contract(x, simplify=False), gen.mk_contract(y, simplify=False), ["exact", "itf"]))
             except ValueError:
                 pass
+    if case["id"] % 3 == 1:
+        # an operand that has ALREADY taken part in a merge is merged again, with a third viewpoint (the second one without its guarantees),
+        # on the left and on the right: each result is the merge of the viewpoints as they were built, not of what an earlier call left behind
+        try:
+            c1, built = gen.mk_contract(d1), C.pcontract(gen.mk_contract(d1))
+            d3 = dict(d2, g=[])
+            ops._call(lambda: c1.merge(gen.mk_contract(d2)))
+            evs.append(ops.ev_merge(c1, gen.mk_contract(d3), ["exact", "itf"], p1=built))
+            evs.append(ops.ev_merge(gen.mk_contract(d3), c1, ["exact", "itf"], p2=built))
+        except ValueError:
+            pass
+    if case.get("only_event"):
+        evs = evs[case["only_event"] - 1: case["only_event"]]
     return {"id": case["id"], "ev": evs}
 
 
